@@ -10,8 +10,9 @@
 # "<Cxx> <tier> (scratch)"; the table in DESIGN.md uses official results only.
 set -u
 NAME="$1"; TIER="$2"; shift 2
-DIR="/verif/seeded/$NAME"
-cd /verif || exit 2
+ROOT="$(cd "$(dirname "$0")/.." && pwd)"
+DIR="$ROOT/seeded/$NAME"
+cd "$ROOT" || exit 2
 SUFFIX=""
 if [ -n "${SLOT:-}" ]; then
   WT="/tmp/mt/slot$SLOT"; mkdir -p /tmp/mt
@@ -27,7 +28,7 @@ else
   git -C /repo apply "$DIR/patch.diff" || { echo "patch does not apply"; exit 2; }
   trap 'git -C /repo checkout -- . ' EXIT
   # evidence of a run against a changed tree is not evidence about /repo: keep it out of /verif/evidence
-  export DLTVERIF_OUT="/verif/work/mutant-out"; mkdir -p "$DLTVERIF_OUT"
+  export DLTVERIF_OUT="$ROOT/work/mutant-out"; mkdir -p "$DLTVERIF_OUT"
 fi
 for P in "$@"; do
   START=$(date +%s)
